@@ -133,5 +133,5 @@ def build_tools(pkgs=("genner", "front")):
     return True
 
 
-def tool(name):
-    return os.path.join(TARGET, "debug", name)
+def tool(name, profile=None):
+    return os.path.join(TARGET, profile or "debug", name)
